@@ -121,10 +121,16 @@ Proof.
   - eapply perm_trans; eassumption.
 Qed.
 
+Lemma old_sort_stmts_perm : forall l, Permutation (old_sort_stmts l) l.
+Proof.
+  intros l. unfold old_sort_stmts. destruct l as [|a [|b l]]; try apply Permutation_refl.
+  apply sort_by_perm.
+Qed.
+
 Lemma sort_stmts_perm : forall l, Permutation (sort_stmts l) l.
 Proof.
   intros l. unfold sort_stmts. destruct l as [|a [|b l]]; try apply Permutation_refl.
-  apply sort_by_perm.
+  destruct (order_matters (a :: b :: l)); [apply Permutation_refl|apply sort_by_perm].
 Qed.
 
 Lemma same_binds_of_perm : forall l l',
@@ -135,16 +141,104 @@ Proof.
   - eapply Permutation_in; [exact H|exact Hin].
 Qed.
 
-Theorem sort_stmts_env : forall l a, coherent l = true -> env (sort_stmts l) a = env l a.
+(* ---- the guard of the repaired rules (fixes._import_order_matters): when no name is bound twice, all
+   bindings are coherent, so any permutation of them gives the same environment *)
+Lemma has_dup_false_unique : forall (B : list (name * itgt)),
+  has_dup (map fst B) = false ->
+  forall a t t', In (a, t) B -> In (a, t') B -> t = t'.
 Proof.
-  intros l a Hc. apply env_same_binds; [exact Hc|].
-  apply same_binds_of_perm. unfold all_binds. apply perm_flat_map. apply sort_stmts_perm.
+  induction B as [|[k v] B IH]; intros H a t t' H1 H2; [destruct H1|].
+  cbn [map fst has_dup] in H. apply orb_false_iff in H. destruct H as [Hk Hd].
+  assert (Hnot : forall u, ~ In (k, u) B).
+  { intros u Hin. assert (Hm : mem k (map fst B) = true).
+    { apply mem_In. apply in_map_iff. exists (k, u). split; [reflexivity|exact Hin]. }
+    rewrite Hm in Hk. discriminate. }
+  destruct H1 as [H1|H1]; destruct H2 as [H2|H2].
+  - congruence.
+  - inversion H1. subst. exfalso. exact (Hnot _ H2).
+  - inversion H2. subst. exfalso. exact (Hnot _ H1).
+  - exact (IH Hd a t t' H1 H2).
 Qed.
 
-(* order dependence: `from 4 import 2; from 0 import 2` (module 4 > module 0) *)
+Lemma unique_coherent : forall (B : list (name * itgt)),
+  (forall a t t', In (a, t) B -> In (a, t') B -> t = t') -> coherent_binds B = true.
+Proof.
+  intros B H. unfold coherent_binds. apply forallb_forall. intros [a t] Hp.
+  apply forallb_forall. intros [a' t'] Hq. cbn [fst snd].
+  destruct (a =? a') eqn:E; [|reflexivity]. apply Nat.eqb_eq in E. subst a'.
+  cbn [negb orb]. apply itgt_eqb_eq. exact (H a t t' Hp Hq).
+Qed.
+
+Lemma order_free_coherent : forall l, order_matters l = false -> coherent l = true.
+Proof.
+  intros l H. unfold order_matters in H. apply orb_false_iff in H. destruct H as [_ Hd].
+  unfold coherent. apply unique_coherent. apply has_dup_false_unique. exact Hd.
+Qed.
+
+(* the statement the task asks for: a permutation of bindings with pairwise distinct bound names yields the
+   same environment *)
+Theorem perm_distinct_names_env : forall B B' a,
+  has_dup (map fst B) = false -> Permutation B' B -> lookup_last B' a = lookup_last B a.
+Proof.
+  intros B B' a Hd Hp. apply env_of_binding_set.
+  - apply unique_coherent. apply has_dup_false_unique. exact Hd.
+  - intros t. split; intros Hin.
+    + eapply Permutation_in; [apply Permutation_sym; exact Hp|exact Hin].
+    + eapply Permutation_in; [exact Hp|exact Hin].
+Qed.
+
+(* the old rule (before cc67280), under the coherence guard *)
+Theorem old_sort_stmts_env : forall l a, coherent l = true -> env (old_sort_stmts l) a = env l a.
+Proof.
+  intros l a Hc. apply env_same_binds; [exact Hc|].
+  apply same_binds_of_perm. unfold all_binds. apply perm_flat_map. apply old_sort_stmts_perm.
+Qed.
+
+(* order dependence of the old rule: `from 4 import 2; from 0 import 2` (module 4 > module 0) *)
 Definition sort_witness : list stmt := [SFrom false 4 [(2, None)]; SFrom false 0 [(2, None)]].
-Theorem sort_stmts_refuted : exists l a, env (sort_stmts l) a <> env l a.
+Theorem old_sort_stmts_refuted : exists l a, env (old_sort_stmts l) a <> env l a.
 Proof. exists sort_witness, 2. vm_compute. discriminate. Qed.
+
+(* FULL theorem for the repaired rule: it refuses exactly the runs whose order could matter *)
+Theorem sort_stmts_env : forall l a, env (sort_stmts l) a = env l a.
+Proof.
+  intros l a. unfold sort_stmts. destruct l as [|s1 [|s2 l]]; try reflexivity.
+  destruct (order_matters (s1 :: s2 :: l)) eqn:E; [reflexivity|].
+  apply env_same_binds; [apply order_free_coherent; exact E|].
+  apply same_binds_of_perm. unfold all_binds. apply perm_flat_map. apply sort_by_perm.
+Qed.
+
+(* the repaired rule leaves the old witness alone, and still sorts where it may *)
+Example sort_stmts_witness_kept : sort_stmts sort_witness = sort_witness.
+Proof. vm_compute. reflexivity. Qed.
+Example sort_stmts_fires :
+  sort_stmts [SFrom false 4 [(2, None)]; SFrom false 0 [(6, None)]] =
+  [SFrom false 0 [(6, None)]; SFrom false 4 [(2, None)]].
+Proof. vm_compute. reflexivity. Qed.
+(* a star import (`from 4 import *`, STAR = 0) or `import os.path` + `import os` (one head) keep the order *)
+Example sort_stmts_star_kept :
+  sort_stmts [SFrom false 4 [(STAR, None)]; SFrom false 2 [(6, None)]] =
+  [SFrom false 4 [(STAR, None)]; SFrom false 2 [(6, None)]].
+Proof. vm_compute. reflexivity. Qed.
+Example sort_stmts_head_kept :
+  sort_stmts [SImport [(4, None, 2, true)]; SImport [(2, None, 2, true)]] =
+  [SImport [(4, None, 2, true)]; SImport [(2, None, 2, true)]].
+Proof. vm_compute. reflexivity. Qed.
+
+(* on aliases Python can write (the asname is an identifier: when it equals the module name that name has no
+   dot and is its own head) the bound name is `asname or head`, as in _import_order_matters *)
+Definition wf_ialias (al : ialias) : bool :=
+  match ias al with
+  | Some a => negb (a =? imod al) || (ihead al =? imod al)
+  | None => true
+  end.
+Lemma ibound_raw : forall al, wf_ialias al = true ->
+  ibound al = match ias al with Some a => a | None => ihead al end.
+Proof.
+  intros al H. unfold ibound, wf_ialias in *. destruct (ias al) as [a|]; [|reflexivity].
+  destruct (a =? imod al) eqn:E; [|reflexivity]. cbn [negb orb] in H.
+  apply Nat.eqb_eq in E. apply Nat.eqb_eq in H. congruence.
+Qed.
 
 (* ---- alias normalisation / sorting inside a statement *)
 Lemma fnorm_bind : forall m al, (fbound (fnorm al), IAttr m (fst (fnorm al))) = (fbound al, IAttr m (fst al)).
@@ -173,9 +267,9 @@ Proof.
   intros als. rewrite map_map. apply map_ext. intros al. apply inorm_bind.
 Qed.
 
-Lemma sort_aliases_stmt_perm : forall s, Permutation (stmt_binds (sort_aliases_stmt s)) (stmt_binds s).
+Lemma old_sort_aliases_stmt_perm : forall s, Permutation (stmt_binds (old_sort_aliases_stmt s)) (stmt_binds s).
 Proof.
-  intros [std m als|als]; cbn [sort_aliases_stmt stmt_binds].
+  intros [std m als|als]; cbn [old_sort_aliases_stmt stmt_binds].
   - rewrite <- (map_fnorm_binds m als). apply Permutation_map. apply sort_by_perm.
   - rewrite <- (map_inorm_binds als). apply Permutation_map. apply sort_by_perm.
 Qed.
@@ -187,16 +281,48 @@ Proof.
   apply Permutation_app; [apply H|exact IH].
 Qed.
 
-Theorem sort_aliases_env : forall l a, coherent l = true -> env (sort_aliases l) a = env l a.
+(* the old rule (before 95f12ea), under the coherence guard *)
+Theorem old_sort_aliases_env : forall l a, coherent l = true -> env (old_sort_aliases l) a = env l a.
 Proof.
   intros l a Hc. apply env_same_binds; [exact Hc|].
-  apply same_binds_of_perm. unfold all_binds, sort_aliases. rewrite flat_map_concat_map, map_map.
-  rewrite <- flat_map_concat_map. apply perm_flat_map_pointwise. apply sort_aliases_stmt_perm.
+  apply same_binds_of_perm. unfold all_binds, old_sort_aliases. rewrite flat_map_concat_map, map_map.
+  rewrite <- flat_map_concat_map. apply perm_flat_map_pointwise. apply old_sort_aliases_stmt_perm.
 Qed.
 
 Definition alias_witness : list stmt := [SFrom false 0 [(4, Some 6); (2, Some 6)]].
-Theorem sort_aliases_refuted : exists l a, env (sort_aliases l) a <> env l a.
+Theorem old_sort_aliases_refuted : exists l a, env (old_sort_aliases l) a <> env l a.
 Proof. exists alias_witness, 6. vm_compute. discriminate. Qed.
+
+(* FULL theorem for the repaired rule.  Statement by statement: the bindings of one statement keep their
+   lookup function (either the statement is left alone or its bound names are pairwise distinct) *)
+Lemma sort_aliases_stmt_lookup : forall s a,
+  lookup_last (stmt_binds (sort_aliases_stmt s)) a = lookup_last (stmt_binds s) a.
+Proof.
+  intros s a. unfold sort_aliases_stmt. destruct (order_matters [s]) eqn:E; [reflexivity|].
+  unfold order_matters, bound_names, all_binds in E. cbn [flat_map] in E. rewrite app_nil_r in E.
+  apply orb_false_iff in E. destruct E as [_ Hd].
+  apply perm_distinct_names_env; [exact Hd|apply old_sort_aliases_stmt_perm].
+Qed.
+
+Lemma env_cons : forall s l a,
+  env (s :: l) a = match env l a with Some t => Some t | None => lookup_last (stmt_binds s) a end.
+Proof. intros s l a. unfold env, all_binds. cbn [flat_map]. apply lookup_last_app. Qed.
+
+Theorem sort_aliases_env : forall l a, env (sort_aliases l) a = env l a.
+Proof.
+  intros l a. induction l as [|s l IH]; [reflexivity|].
+  unfold sort_aliases in *. cbn [map]. rewrite !env_cons, IH, sort_aliases_stmt_lookup. reflexivity.
+Qed.
+
+(* fixes.sort_imports = _fix_imported_as_self_or_unsorted after _sort_import_statements *)
+Theorem sort_imports_env : forall l a, env (sort_aliases (sort_stmts l)) a = env l a.
+Proof. intros l a. rewrite sort_aliases_env. apply sort_stmts_env. Qed.
+
+Example sort_aliases_witness_kept : sort_aliases alias_witness = alias_witness.
+Proof. vm_compute. reflexivity. Qed.
+Example sort_aliases_fires :
+  sort_aliases [SFrom false 0 [(4, Some 6); (2, Some 2)]] = [SFrom false 0 [(2, None); (4, Some 6)]].
+Proof. vm_compute. reflexivity. Qed.
 
 (* ---- remove_unused_imports *)
 Lemma filter_In_pair : forall X (p : X -> bool) (f : X -> name * itgt) als a t,
@@ -584,20 +710,30 @@ Definition dup_from_witness : list stmt :=
 Theorem dup_from_refuted : exists l a, env (dup_from l) a <> env l a.
 Proof. exists dup_from_witness, 2. vm_compute. discriminate. Qed.
 
-(* non-vacuity: a coherent list on which every rule does something *)
+(* non-vacuity: a coherent list on which every guarded rule does something (the two sort rules need no guard
+   any more and leave this list alone: it imports module 10 twice; sort_example below is for them) *)
 Definition coherent_example : list stmt :=
   [SFrom false 4 [(6, None); (2, Some 8)]; SFrom false 4 [(2, None)];
    SImport [(10, None, 10, true); (0, Some 12, 0, false)];
    SFrom false 0 [(2, Some 14)]; SImport [(10, None, 10, true)]].
 Example coherent_example_ok :
   coherent coherent_example = true /\
-  sort_stmts coherent_example <> coherent_example /\
+  order_matters coherent_example = true /\ sort_stmts coherent_example = coherent_example /\
   dup_from coherent_example <> coherent_example /\
   dup_regular coherent_example <> coherent_example /\
   breakout coherent_example <> coherent_example /\
-  sort_aliases coherent_example <> coherent_example /\
   remove_unused [2; 12] coherent_example <> coherent_example.
-Proof. vm_compute. split; [reflexivity|]. repeat split; intro H; discriminate H. Qed.
+Proof. vm_compute. split; [reflexivity|]. split; [reflexivity|]. split; [reflexivity|]. repeat split; intro H; discriminate H. Qed.
+
+(* a run the repaired sort rules do re-order: no name bound twice, no star; statements AND aliases move *)
+Definition sort_example : list stmt :=
+  [SFrom false 4 [(6, None); (2, Some 8)]; SImport [(10, Some 10, 10, true)]; SFrom false 0 [(2, Some 14)]].
+Example sort_example_ok :
+  order_matters sort_example = false /\
+  sort_stmts sort_example = [SImport [(10, Some 10, 10, true)]; SFrom false 0 [(2, Some 14)]; SFrom false 4 [(6, None); (2, Some 8)]] /\
+  sort_aliases (sort_stmts sort_example) =
+    [SImport [(10, None, 10, true)]; SFrom false 0 [(2, Some 14)]; SFrom false 4 [(2, Some 8); (6, None)]].
+Proof. vm_compute. repeat split; reflexivity. Qed.
 
 (* =========================================================================================== *)
 (* T18.1  star expansion and re-export redirection preserve `resolve`                            *)
